@@ -146,7 +146,8 @@ def run_property(prop: str, rules: list[Rule], explanation: str, assumptions: li
             rule.func(ctx)
             mine = [i for i in ctx.instances[n0:] if not i.control]
             per_rule[rule.rid] = dict(title=rule.title, instances=len(mine), violations=sum(1 for i in mine if not i.ok))
-            if len(mine) < rule.min_instances:
+            # a rule that already reports a specific construct says more than 'too few instances'
+            if len(mine) < rule.min_instances and all(i.ok for i in mine):
                 raise AnalysisError(
                     f"{rule.rid}: only {len(mine)} instance(s) matched, {rule.min_instances} confirmed by hand "
                     f"(a rule that matches nothing passes vacuously)"
